@@ -346,7 +346,26 @@ def r5_latest_wins(ctx, cfg, rule="C04.R5"):
     ctx.floor(rule, n, 2, "de-duplicating walks over UpdateSection::all_entries")
 
 
+# swallow sites of fallible persistence calls in cascette-client-storage, read one by one (caller suffix, callee) -> (max sites, reason)
+R6_ALLOW = {
+    ("<IndexManager>::save_index", "write_index_to_file"): (1, "retry loop: three attempts, the last error is returned after the loop"),
+    ("<IndexManager>::save_index", "rename"): (1, "same retry loop"),
+    ("<IndexManager>::remove_entry", "flush_updates_for_bucket"): (1, "returns bool: the Err arm logs and returns false (the removal is reported as not done)"),
+    ("<IndexEntry>::to_packed", "write_be"): (1, "writes 5 bytes into an in-memory Vec cursor; to_packed returns the Vec and has no error channel"),
+    ("<HardLinkContainer>::test_support", "write"): (1, "capability probe: a failed probe write means 'hard links unsupported' and that is what is returned"),
+    ("<HardLinkContainer>::test_support", "hard_link"): (1, "capability probe: the failure is the answer (Ok(false))"),
+    ("<Storage>::validate_casc_directory_structure", "write"): (1, "write-permission probe of a directory: the failure is logged as a warning, nothing the caller asked to store is involved"),
+}
+
+
+def r6_persist_errors(ctx, cfg):
+    from .errflow import rule_persist
+    rule_persist(ctx, "C04.R6", "cascette_client_storage", cfg.get("r6_scope"), cfg.get("r6_allow", R6_ALLOW), cfg.get("r6_floor", 90),
+                 "cascette-client-storage")
+
+
 def run(ctx, cfg=CFG):
+    r6_persist_errors(ctx, cfg)
     r1_remap(ctx, cfg)
     r2_single_decode(ctx, cfg)
     r3_bookkeeping(ctx, cfg)
